@@ -4,11 +4,11 @@
 kind=$1; shift
 to=300
 if [[ $1 =~ ^[0-9]+$ ]]; then to=$1; shift; fi
-rm -rf /tmp/dev/ov-$kind
+rm -rf ${DEV:-/tmp/dev}/ov-$kind
 python3 -c "
 import sys; sys.path.insert(0,'/verif/lib')
-import overlay; overlay.make('$kind','/tmp/dev/ov-$kind')" || exit 1
-[ -d /tmp/dev/target-$kind ] || cp -a /verif/.cache/warm-target /tmp/dev/target-$kind
+import overlay; overlay.make('$kind','${DEV:-/tmp/dev}/ov-$kind')" || exit 1
+[ -d ${DEV:-/tmp/dev}/target-$kind ] || cp -a /verif/.cache/warm-target ${DEV:-/tmp/dev}/target-$kind
 args=()
 for h in "$@"; do args+=(--harness "$h"); done
-cd /tmp/dev/ov-$kind && CARGO_NET_OFFLINE=true cargo kani --no-default-features -Z stubbing -Z unstable-options --target-dir /tmp/dev/target-$kind --harness-timeout ${to}s -j 8 --output-format terse "${args[@]}" 2>&1 | grep -v "^warning\|^ *|\|^ *=\|^$\|-->\|^[0-9 ]*|" 
+cd ${DEV:-/tmp/dev}/ov-$kind && CARGO_NET_OFFLINE=true cargo kani --no-default-features -Z stubbing -Z unstable-options --target-dir ${DEV:-/tmp/dev}/target-$kind --harness-timeout ${to}s -j 8 --output-format terse "${args[@]}" 2>&1 | grep -v "^warning\|^ *|\|^ *=\|^$\|-->\|^[0-9 ]*|" 
